@@ -28,6 +28,9 @@ type natSpec struct {
 	MapB  int               `json:"map"`
 	FilB  int               `json:"filter"`
 	Pairs map[string]string `json:"pairs,omitempty"` // wan ip -> local ip (1:1)
+	// IdlePairs: static wan/local pairs configured on a NAPT router (StaticIPs "wan/local" without the 1:1 mode); legal and
+	// without meaning for a NAPT: the expected behaviour is that of the same router without them
+	IdlePairs map[string]string `json:"idle_pairs,omitempty"`
 }
 
 type routerSpec struct {
@@ -179,7 +182,13 @@ func (w *world) build() error {
 					cfg.StaticIPs = append(cfg.StaticIPs, wip+"/"+rs.NAT.Pairs[wip])
 				}
 			} else {
-				cfg.StaticIPs = rs.WANs
+				for _, wip := range rs.WANs {
+					if loc, ok := rs.NAT.IdlePairs[wip]; ok {
+						cfg.StaticIPs = append(cfg.StaticIPs, wip+"/"+loc)
+					} else {
+						cfg.StaticIPs = append(cfg.StaticIPs, wip)
+					}
+				}
 			}
 		}
 		r, err := vnet.NewRouter(cfg)
@@ -822,6 +831,14 @@ func genCase(rng *rand.Rand) *tcase {
 				rs.WANs = []string{mkWan()}
 				if rng.Intn(4) == 0 {
 					rs.WANs = append(rs.WANs, mkWan())
+				}
+				if rng.Intn(3) == 0 {
+					_, lnet, _ := net.ParseCIDR(rs.CIDR)
+					lb := lnet.IP.To4()
+					rs.NAT.IdlePairs = map[string]string{}
+					for j, wip := range rs.WANs {
+						rs.NAT.IdlePairs[wip] = fmt.Sprintf("%d.%d.%d.%d", lb[0], lb[1], lb[2], 1+j)
+					}
 				}
 			}
 		}
